@@ -491,7 +491,8 @@ def gen_cases(tier, seed):
             cases.append(("exh", "B %s e | %s" % (p, h)))
     for h in six + nine:
         cases.append(("exh", "S - e | %s" % h))
-    n_long = (12, 400, 1, 10000) if tier == "thorough" else (8, 250, 1, 1500)
+    # the extracted model indexes lists with unary nat: a 10^4-operation history costs hours, 3000 a minute
+    n_long = (12, 400, 2, 3000) if tier == "thorough" else (8, 250, 1, 1500)
     for imp, prof in (("B", "default"), ("S", "-")):
         for _ in range(n_long[0]):
             cases.append(("long", "%s %s 50 | %s" % (imp, prof, gen_random_history(rng, n_long[1]))))
@@ -614,7 +615,11 @@ def run(tier, seed):
                      "max_items unbounded in the theorems (finite limits: correspondence + read-back stability only)",
                      "usize arithmetic does not overflow; slice::sort_by is stable",
                      "the intern-table hash is injective on the constants added (C15_simple_intern)"]
-    pr = vplib.prove(PID, ["Proofs/C15"], extra_targets=["Extract/StoreExtract.vo"])
+    sy = vplib.sync(["storecells"])
+    for name, e in sy.get("errors", {}).items():
+        v.tie_failure("translator %s: %s" % (name, e))
+    v.coverage["tables_regenerated"] = sy.get("changed", [])
+    pr = vplib.prove(PID, ["Proofs/C15"], extra_targets=["Extract/StoreExtract.vo", "Proofs/C15/Variants.vo"])
     for f in pr["failures"]:
         v.tie_failure("prove: " + f)
     v.coverage.update(vplib.proof_coverage(
